@@ -22,8 +22,8 @@ import (
 // function at hand (helpers export the obligation to their callers through summaries).
 
 type vwtSlot struct {
-	obj types.Object // variable (nil for an anonymous stack read used in place)
-	idx string       // "" scalar, decimal constant, "*" variable index, "whole" the slice as a whole
+	obj  types.Object // variable (nil for an anonymous stack read used in place)
+	idx  string       // "" scalar, decimal constant, "*" variable index, "whole" the slice as a whole
 	anon ast.Node
 }
 
@@ -742,7 +742,7 @@ func r11(c *fw.Ctx) {
 				}
 				if strings.HasPrefix(org, "GetArgs(") {
 					// GetArgs(K) with constant K: the slots are exactly 0..K-1
-					arg := org[len("GetArgs(") : strings.LastIndex(org, ")")]
+					arg := org[len("GetArgs("):strings.LastIndex(org, ")")]
 					isConst := arg != ""
 					for _, ch := range arg {
 						if ch < '0' || ch > '9' {
